@@ -93,7 +93,9 @@ pub fn generate(verif_seed: u64, idx: u64) -> Scenario {
     cfg.p_err_leaf = *rng.pick(&[0, 30, 100]);
     cfg.max_probes = 6;
     scn.text_build = rng.chance(1, 12);
-    let nrules = rng.usize(7);
+    // now and then a larger ruleset (chunked or sorted evaluation of many rules would show here)
+    let nrules = if rng.chance(1, 10) { 7 + rng.usize(10) } else { rng.usize(7) };
+    let names = crate::c05::rule_names(&mut rng, nrules);
     let mut grng = rng.fork();
     let mut g = Gen::new(&mut grng, cfg, refs, syms);
     for i in 0..nrules {
@@ -103,7 +105,7 @@ pub fn generate(verif_seed: u64, idx: u64) -> Scenario {
         // a rule that is a bare error leaf now and then: failure at the root
         let d = if g.rng.chance(1, 6) { 0 } else { g.cfg.max_depth.min(3) };
         let expr = g.gen(ty, d);
-        scn.rules.push(RuleSpec { name: format!("rule {i}"), expr });
+        scn.rules.push(RuleSpec { name: names[i].clone(), expr });
     }
     // half of the functions are cacheable: the shared cache is exercised across a failing neighbour
     let cache_mask = g.rng.next_u64();
